@@ -347,6 +347,30 @@ def run(tier, seed):
         core.replay_paths(chk, g, ps, lambda acts, lay=lay: PropsDriver(lay), 'edges/' + lay, 'c17', {'layout': lay})
         core.replay_paths(chk, g, list(core.random_walks(g, 2000 if thorough else 300, 10, rng)),
                           lambda acts, lay=lay: PropsDriver(lay), 'walks/' + lay, 'c17', {'layout': lay})
+    # a remote Set whose variant holds a value of ANOTHER type than the property declares is not a successful Set: it is
+    # answered with an error and changes nothing - Get goes on returning the last value, typed as declared, and GetAll
+    # goes on working for everybody
+    for lay in ('base-both', 'anon'):
+        drv = PropsDriver(lay)
+        bad = []
+        for pid, wrong in ((1, 'hello'), (1, marshal.ObjectPath('/x')), (5, 'much'), (8, marshal.Int32(5)), (7, marshal.Int32(3))):
+            iface, name, sig = DECL[pid][0], DECL[pid][1], DECL[pid][2]
+            drv.apply('Get', (iface, name))
+            before = dict(drv.reply)
+            c = drv.call('Set', 'ssv', [iface, name, wrong])
+            replies = [message.parseMessage(m.rawMessage, []) for m in drv.conn.sent if m._messageType in (2, 3)]
+            if not replies or replies[-1]._messageType != 3:
+                bad.append('Set(%s %s declared %s, %r) is not refused' % (iface, name, sig, wrong))
+            drv.apply('Get', (iface, name))
+            if drv.reply != before:
+                bad.append('Get(%s %s) after the refused Set: %r, before %r' % (iface, name, drv.reply, before))
+            drv.apply('GetAll', (iface,))
+            if drv.reply.get('k') != 'all':
+                bad.append('GetAll(%s) after the refused Set: %r' % (iface, drv.reply))
+        chk.traces += 1
+        if bad:
+            chk.violation('layout %s: %s' % (lay, bad[0]), dict(kind='case', module='c17', layout=lay, all=bad[:6]))
+
     # code -> spec: random histories with all three values
     ifaces = ['org.v.I1', 'org.v.I2', 'org.v.I1n', '', 'x.Unknown']
     names = ['level', 'name', 'secret', 'ratio', 'flag', 'ame', 'nope']
